@@ -160,9 +160,9 @@ class World:
     CELL = (2, 4)
 
     def __init__(self, fam: str, par: list[int], nc: int, wseed: int, geo: dict | None = None,
-                 dm: list[int] | None = None, fl: list[int] | None = None):
+                 dm: list[int] | None = None, fl: list[int] | None = None, real: list[str] | None = None):
         from PIL import Image
-        from term_image.image import ITerm2Image, KittyImage
+        from term_image.image import BaseImage, GraphicsImage, ITerm2Image, KittyImage
 
         self.fam = fam
         self.par = list(par)
@@ -170,8 +170,10 @@ class World:
         self.n = len(par)
         self.rng = random.Random(wseed)
         self.base = {"kitty": KittyImage, "iterm2": ITerm2Image}[fam]
-        _snapshot(self.base)
-        restore_real_classes(self.base)
+        self.other = {"kitty": ITerm2Image, "iterm2": KittyImage}[fam]
+        self.real = list(real) if real else ["style"] + [""] * (self.n - 1)
+        self.style_node = self.real.index("style") + 1
+        self._restore()
         stubs.set_term(size=(80, 30), cell=self.CELL)
         stubs.set_identity(IDENT[fam])
         if geo is None:  # source smaller / larger than the rendered pixel size, both often
@@ -186,12 +188,18 @@ class World:
         mode = self.rng.choice(["RGB", "RGB", "RGBA", "L"])
         self.img = Image.new(mode, (geo["ow"], geo["oh"]))
         self.nodes: list = [None] * (self.n + 1)
-        self.nodes[1] = self.base
         self.dm = list(dm) if dm else [0] * self.n
         self.fl = list(fl) if fl else [0] * self.n
         self.metas: list = []
-        for i in range(2, nc + 1):
-            parent = self.nodes[par[i - 1]]
+        reals = {"BaseImage": BaseImage, "GraphicsImage": GraphicsImage, "style": self.base, "other": self.other}
+        for i in range(1, nc + 1):
+            parent = self.nodes[par[i - 1]] if par[i - 1] else None
+            if self.real[i - 1]:
+                # a REAL library class; its place in the tree must be its real ancestry
+                self.nodes[i] = reals[self.real[i - 1]]
+                if parent is not None and parent not in self.nodes[i].__bases__:
+                    raise MachineryError(f"c20: {self.nodes[i].__name__} is not a direct subclass of {parent.__name__}")
+                continue
             name = f"C20{fam.capitalize()}{i}"
             # fl: the class defines __len__ returning 0 -> its instances are falsy objects
             body = {"__len__": lambda self: 0} if self.fl[i - 1] else {}
@@ -208,9 +216,20 @@ class World:
             falsy = any(self.fl[c - 1] for c in self._chain(par[i - 1]))
             if bool(self.nodes[i]) == falsy:
                 raise MachineryError(f"c20: instance {i} should be {'falsy' if falsy else 'truthy'}")
-        self._created = {i: set(vars(self.nodes[i])) for i in range(2, self.n + 1)}
+        self._created = {i: set(vars(self.nodes[i])) for i in range(1, self.n + 1) if not self.real[i - 1]}
 
     # ----------------------------------------------------------------- helpers
+    def _restore(self) -> None:
+        restore_real_classes(self.base)
+        restore_real_classes(self.other)
+
+    def in_family(self, n: int) -> bool:
+        """The style class, a user subclass or an instance (where the style's own settings exist)."""
+        return self.style_node in self._chain(n)
+
+    def abstract(self, n: int) -> bool:
+        return self.real[n - 1] in ("BaseImage", "GraphicsImage")
+
     def _chain(self, c: int):
         while c:
             yield c
@@ -224,12 +243,12 @@ class World:
 
     def clean(self) -> None:
         """Back to 'nothing set anywhere' without re-creating the classes."""
-        restore_real_classes(self.base)
+        self._restore()
         for meta, created in self.metas:
             for k in list(vars(meta)):
                 if k not in created:
                     delattr_raw(meta, k)
-        for i in range(2, self.n + 1):
+        for i in self._created:
             node = self.nodes[i]
             for k in list(vars(node)):
                 if k not in self._created[i] and not k.startswith("_abc_"):
@@ -240,7 +259,7 @@ class World:
         stubs.set_identity(IDENT[self.fam])
 
     def close(self) -> None:
-        restore_real_classes(self.base)
+        self._restore()
 
     # ------------------------------------------------------------- operations
     def do(self, op: dict, canonical: bool = False):
@@ -334,6 +353,9 @@ class World:
             vals = []
             for i in range(1, self.n + 1):
                 node = self.nodes[i]
+                if st != "fs" and not self.in_family(i):
+                    vals.append(NA)  # only forced_support exists above / beside the style class
+                    continue
                 if st == "rm":
                     if not render:
                         vals.append(SKIP)
@@ -354,15 +376,29 @@ class World:
                         vals.append(rec("error", 0, type(e).__name__))
             eff[st] = vals
         gates = ["skip"] * self.n
+        clr = ["skip"] * self.n
         if gate:
+            import term_image.image.iterm2 as im
+            import term_image.image.kitty as km
             from term_image.exceptions import StyleError
 
+            emitted: list = []
+            saved = (km._stdout_write, km.write_tty, im._stdout_write, im.write_tty)
+            km._stdout_write = im._stdout_write = km.write_tty = im.write_tty = emitted.append
             stubs.set_identity(UNSUPPORTED_IDENT)
             try:
                 for i in range(1, self.n + 1):
-                    if not self.is_class(i):
-                        gates[i - 1] = "na"
+                    if not self.is_class(i) or self.abstract(i):
+                        gates[i - 1] = clr[i - 1] = "na"
                         continue
+                    # consumer 2: clear() of the invoking class
+                    del emitted[:]
+                    try:
+                        self.nodes[i].clear(now=self.rng.random() < 0.3)
+                        clr[i - 1] = "emits" if emitted else "silent"
+                    except Exception as e:
+                        clr[i - 1] = "error:" + type(e).__name__
+                    # consumer 1: instantiation
                     try:
                         self._instance(i)
                         gates[i - 1] = "open"
@@ -371,8 +407,9 @@ class World:
                     except Exception as e:
                         gates[i - 1] = "error:" + type(e).__name__
             finally:
+                km._stdout_write, km.write_tty, im._stdout_write, im.write_tty = saved
                 stubs.set_identity(IDENT[self.fam])
-        return {"eff": eff, "gate": gates, "px": px}
+        return {"eff": eff, "gate": gates, "clr": clr, "px": px}
 
 
 def clean_init(n: int) -> dict:
